@@ -50,11 +50,73 @@ struct LinkMon {
     seeded: bool,
     /// (now, loss_ewma after the tick) for every tick that evaluated the loss EWMA
     trace: Vec<(u64, f64)>,
+    /// ghost of the loss the counters really show: previous counter observation and the
+    /// (time, packets, NAKs) samples of the last second
+    base: Option<(u64, i32)>,
+    samples: Vec<(u64, u64, u64)>,
+    /// a 32-bit sum saturated somewhere: the implementation's running sums are no longer comparable
+    saturated: bool,
 }
 
 impl LinkMon {
     fn fresh() -> Self {
         LinkMon { prev: Some(LinkCongestionState::default().snapshot()), ..Default::default() }
+    }
+
+    /// C16 "honesty of the loss path": the loss the controller acts on is the NAK delta over the packet
+    /// delta (bytes / 1316) between successive counter observations, over the last 1000 ms - whatever the
+    /// counters did before (restart after a reconnect included: a counter that went DOWN contributes 0,
+    /// and the next delta is measured from the new value).
+    fn ghost_traffic(&mut self, b: u64, k: i32, now: u64) {
+        let Some((pb, pk)) = self.base else {
+            self.base = Some((b, k));
+            return;
+        };
+        let db = b.saturating_sub(pb);
+        let dk = k.saturating_sub(pk).max(0) as u64;
+        self.base = Some((b, k));
+        if db == 0 && dk == 0 {
+            return;
+        }
+        let mut sent = db / 1316;
+        if sent > u32::MAX as u64 {
+            sent = u32::MAX as u64;
+        }
+        if dk > 0 && sent == 0 {
+            sent = 1;
+        }
+        self.ghost_loss(sent, dk, now);
+    }
+
+    fn ghost_loss(&mut self, sent: u64, lost: u64, now: u64) {
+        self.samples.push((now, sent, lost));
+        let (s, l) = self.samples.iter().fold((0u64, 0u64), |a, x| (a.0 + x.1, a.1 + x.2));
+        if s > u32::MAX as u64 || l > u32::MAX as u64 {
+            self.saturated = true;
+        }
+        self.ghost_evict(now);
+    }
+
+    fn ghost_evict(&mut self, now: u64) {
+        let cutoff = now.saturating_sub(1000);
+        while self.samples.first().is_some_and(|x| x.0 < cutoff) {
+            self.samples.remove(0);
+        }
+    }
+
+    fn check_loss(&self, n: &LinkCcSnapshot, what: &str, mon: &mut Mon) {
+        if self.saturated {
+            mon.count("loss-window-saturated-skip");
+            return;
+        }
+        let (s, l) = self.samples.iter().fold((0u64, 0u64), |a, x| (a.0 + x.1, a.1 + x.2));
+        let want = if s == 0 { 0 } else { (l.saturating_mul(1000) / s).min(1_000_000) };
+        if l > 0 {
+            mon.count("loss-window-nonzero");
+        }
+        if u64::from(n.loss_permille) != want {
+            mon.fail("C16", "loss-window-not-from-counters", format!("{what}: the controller's loss is {} permille, the counter observations of the last 1000 ms show {l} NAKs over {s} packets = {want} permille", n.loss_permille));
+        }
     }
 
     fn note_rtt(&mut self, x: f64) {
@@ -687,6 +749,8 @@ impl Component for LinkCc {
                 self.prev_bytes = Some(b);
                 self.cc.observe_traffic(b, k, now);
                 let n = self.cc.snapshot();
+                self.lm.ghost_traffic(b, k, now);
+                self.lm.check_loss(&n, "observe_traffic", mon);
                 if n.loss_permille > 1_000_000 {
                     mon.fail("C16", "loss-permille-range", format!("loss_permille {}", n.loss_permille));
                 }
@@ -699,6 +763,8 @@ impl Component for LinkCc {
                 };
                 self.cc.record_loss(s, l, now);
                 let n = self.cc.snapshot();
+                self.lm.ghost_loss(u64::from(s), u64::from(l), now);
+                self.lm.check_loss(&n, "record_loss", mon);
                 self.lm.after_other(&n, "record_loss", mon);
                 show_snap(" ", &n)
             }
@@ -706,6 +772,8 @@ impl Component for LinkCc {
                 let (Ok(o), Ok(now)) = (o.parse::<u64>(), now.parse::<u64>()) else { return "bad-op".into() };
                 self.cc.tick(o, now);
                 let n = self.cc.snapshot();
+                self.lm.ghost_evict(now);
+                self.lm.check_loss(&n, "tick", mon);
                 self.lm.after_tick(&n, o, now, "", mon);
                 show_snap(" ", &n)
             }
@@ -753,8 +821,12 @@ impl Component for LinkCc {
                         lm.after_other(&cc.snapshot(), "record_rtt", mon);
                     }
                     cc.observe_traffic(*bytes, *nak, now);
+                    lm.ghost_traffic(*bytes, *nak, now);
+                    lm.check_loss(&cc.snapshot(), "observe_traffic (tick_all shadow)", mon);
                     lm.after_other(&cc.snapshot(), "observe_traffic", mon);
                     cc.tick(obs, now);
+                    lm.ghost_evict(now);
+                    lm.check_loss(&cc.snapshot(), "tick (tick_all shadow)", mon);
                     lm.after_tick(&cc.snapshot(), obs, now, &tag, mon);
                     let _ = was_present;
                 }
